@@ -103,8 +103,48 @@ theorem growSize_eq (c32 : Bool) (ds n : BitVec 64)
     simp only [BitVec.toNat_ofNat, Nat.reducePow, Nat.reduceMod, decide_eq_false_iff_not]
     omega
   obtain ⟨_, _, _, _, _, _, h7, h8, h9, h10, h11, _, _⟩ := sec32_eq_sec64_guards
-  cases c32 <;> simp only [SecBuf.growSize, h7, h8, h9, h10, h11, e1, e2] <;> simp <;>
+  -- `nullptr != new_data` : the generated test on a successful allocation
+  have e6 : sec32_insert_alloc_ok true = true := rfl
+  have e7 : sec64_insert_alloc_ok true = true := rfl
+  cases c32 <;> simp only [SecBuf.growSize, h7, h8, h9, h10, h11, e1, e2, e6, e7] <;> simp <;>
     exact ⟨e3, by rw [e4]; exact e5, e4⟩
+
+/-! ### hand forms of the conditions regenerated from `set_data` / `insert_data`
+
+`if ( translator->empty() )`, the stream-size arguments, `nullptr != data.get() && nullptr != raw_data`:
+the model calls the generated definitions; these lemmas restate the operations with the conditions
+written out, which is the form the C07 / C09 / C11 / C12 proofs were written against. -/
+
+theorem SecBuf.setFinish_hand (b : SecBuf) :
+    b.setFinish =
+      (let b := b.setSize b.dataSize
+       if b.translatorEmpty then { b with streamSize := b.dataSize } else b) := by
+  unfold SecBuf.setFinish
+  simp only []
+  cases (b.setSize b.dataSize).cls <;> rfl
+
+theorem SecBuf.insertFinish_hand (b : SecBuf) (newSize n : BitVec 64) :
+    b.insertFinish newSize n =
+      (let b := b.setSize newSize
+       if b.translatorEmpty then { b with streamSize := b.streamSize + n } else b) := by
+  unfold SecBuf.insertFinish
+  simp only []
+  cases (b.setSize newSize).cls <;> rfl
+
+theorem SecBuf.setData_hand (b : SecBuf) (raw : Option Bytes) (sz : BitVec 64) :
+    b.setData raw sz =
+      (let c32 := b.cls == .c32
+       if (if c32 then sec32_set_data_not_nobits b.stype else sec64_set_data_not_nobits b.stype) then
+         let n := if c32 then sec32_set_data_alloc sz else sec64_set_data_alloc sz
+         match raw with
+         | some r => do
+           let src ← rdRange "set_data/copy-src" (some r) 0 sz.toNat
+           let d ← wrRange "set_data/copy" (some (alloc n.toNat)) 0 src
+           pure (SecBuf.setFinish { b with data := d, dataSize := sz })
+         | none => pure (SecBuf.setFinish { b with data := some (alloc n.toNat), dataSize := 0 })
+       else pure (SecBuf.setFinish b)) := by
+  unfold SecBuf.setData
+  cases raw <;> cases (b.cls == Cls.c32) <;> rfl
 
 /-! ### copy patterns -/
 theorem inplace_view (a raw : Bytes) (pos size : Nat) (hp : pos ≤ size)
